@@ -100,6 +100,9 @@ func (e *Entry) onClose() error {
 	w.mu.Lock()
 	w.CloseLog = append(w.CloseLog, e)
 	err := w.CloseErr[e.Serial]
+	if err == nil && w.CloseFailRegs[e.Reg] {
+		err = fmt.Errorf("injected-close-error-r%d", e.Reg)
+	}
 	w.mu.Unlock()
 	return err
 }
@@ -123,22 +126,23 @@ type GatePoint struct {
 
 // World is the per-case universe: ledger, fault plan, registered functions.
 type World struct {
-	mu       sync.Mutex
-	Cfg      *Config
-	M        *Model
-	seq      atomic.Int64
-	serial   int
-	Entries  []*Entry
-	Invs     []*Inv
-	Count    map[int]int
-	Faults   map[[2]int]Fault
-	CloseErr map[int]error
-	CloseLog []*Entry // instances in the order their Close() was called
-	Gate     func(GatePoint)
-	opScope  sync.Map // goid -> scope tag
-	Ctors    map[int]any
-	InstEnt  map[int]*Entry
-	Anomaly  []string
+	mu            sync.Mutex
+	Cfg           *Config
+	M             *Model
+	seq           atomic.Int64
+	serial        int
+	Entries       []*Entry
+	Invs          []*Inv
+	Count         map[int]int
+	Faults        map[[2]int]Fault
+	CloseErr      map[int]error
+	CloseFailRegs map[int]bool // every instance of these registrations fails in Close
+	CloseLog      []*Entry     // instances in the order their Close() was called
+	Gate          func(GatePoint)
+	opScope       sync.Map // goid -> scope tag
+	Ctors         map[int]any
+	InstEnt       map[int]*Entry
+	Anomaly       []string
 }
 
 func NewWorld(cfg *Config) (*World, error) {
@@ -405,7 +409,8 @@ func (w *World) invoke(r *Reg, ft reflect.Type, args []reflect.Value) []reflect.
 			return res
 		}
 	case FaultNil:
-		if r.Form == FormPlain || r.Form == FormMulti {
+		// only interface-typed single results: a nil pointer is a value like any other
+		if r.Form == FormPlain && IsIface(r.Outs[0].T) {
 			inv.Outcome = 4
 			inv.EndSeq = w.NextSeq()
 			return res
